@@ -106,24 +106,30 @@ Definition gl_hw (xmin xmax : T) : T := half * (xmax - xmin).
 Definition gl_assemble (n : nat) (xmin xmax : T) (zs : list (T * T)) : list (T * T) :=
   gl_store_all n (gl_mid xmin xmax) (gl_hw xmin xmax) (repeat (zero, zero) n) 0 zs.
 
-(** Compute_Gauss_Legendre_Roots_and_Weights(n, x_min, x_max) *)
-Definition gl_rule (n : nat) (xmin xmax : T) : res (list (T * T)) :=
-  rbind (gl_roots n) (fun zs => Ok (gl_assemble n xmin xmax zs)).
+(** Compute_Gauss_Legendre_Roots_and_Weights(n, x_min, x_max): the table as the vector of two-entry rows
+    {node, weight} the callers see *)
+Definition rows_of (t : list (T * T)) : list (list T) := map (fun r => [fst r; snd r]) t.
+Definition gl_rule (n : nat) (xmin xmax : T) : res (list (list T)) :=
+  rbind (gl_roots n) (fun zs => Ok (rows_of (gl_assemble n xmin xmax zs))).
 
-(** Integrate_Gauss_Legendre(function_values, roots_and_weights) *)
-Definition gl_integrate_values (vals : list T) (rw : list (T * T)) : res T :=
+(** Integrate_Gauss_Legendre(function_values, roots_and_weights): exits when the two sizes differ, then
+    when some row does not consist of exactly a root and a weight; integral += function_values[i] * rw[i][1] *)
+Definition gl_integrate_values (vals : list T) (rw : list (list T)) : res T :=
   if negb (Nat.eqb (length vals) (length rw)) then Exit
-  else Ok (fold_left (fun acc vr => acc + fst vr * snd (snd vr)) (combine vals rw) zero).
+  else if negb (forallb (fun r => Nat.eqb (length r) 2) rw) then Exit
+  else Ok (fold_left (fun acc vr => acc + fst vr * nth0 Ops (snd vr) 1) (combine vals rw) zero).
 
-(** Integrate_Gauss_Legendre(func, roots_and_weights) *)
-Definition gl_integrate_fun (f : T -> T) (rw : list (T * T)) : res T :=
-  gl_integrate_values (map (fun r => f (fst r)) rw) rw.
+(** Integrate_Gauss_Legendre(func, roots_and_weights): function_values[i] = func(rw[i][0]) is read before
+    the row-size guard of the value overload; an empty row would be read out of bounds *)
+Definition gl_integrate_fun (f : T -> T) (rw : list (list T)) : res T :=
+  if negb (forallb (fun r => negb (Nat.eqb (length r) 0)) rw) then OOB
+  else gl_integrate_values (map (fun r => f (nth0 Ops r 0)) rw) rw.
 
 (** Integrate_Gauss_Legendre(func, a, b, sample_points) *)
 Definition gl_integrate (f : T -> T) (a b : T) (n : nat) : res T :=
   rbind (gl_rule n a b) (fun rw => gl_integrate_fun f rw).
 
 (** default arguments of the header: x_min = -1.0, x_max = 1.0; sample_points = 30 *)
-Definition gl_rule_default (n : nat) : res (list (T * T)) := gl_rule n (nneg Ops one) one.
+Definition gl_rule_default (n : nat) : res (list (list T)) := gl_rule n (nneg Ops one) one.
 Definition gl_integrate_default (f : T -> T) (a b : T) : res T := gl_integrate f a b 30.
 End GL.
